@@ -215,7 +215,7 @@ def cases(draw):
 def check(case):
     stmts = [("print", S("@start"))] + case["stmts"] + [("print", S("@end"))]
     src, _ = ms.program(stmts)
-    hist, _ = ms.program(case["stmts"][4:])
+    hist, _ = ms.program(case["stmts"] if case.get("raw") else case["stmts"][4:])
     try:
         out, failure = model.Interp().run(stmts)
     except model.OutOfFuel:
@@ -232,8 +232,29 @@ def check(case):
             if os.environ.get("MSV_DEBUG"):
                 print("REJECTED:\n" + hist + "\n" + run.stdout[:800])
             return r
-        r.failure = fail("; ".join(fails) + "\nhistory:\n" + hist, "C08:%s:%s" % ("stdout" if run.stdout != out else "exit", run.klass), sc, case={"history": hist})
+        feats = ",".join(l for l in case["labels"] if l.startswith("feat:"))
+        r.failure = fail("; ".join(fails) + "\nhistory:\n" + hist, "C08:%s:%s:%s" % ("stdout" if run.stdout != out else "exit", run.klass, feats), sc, case={"history": hist})
     return r
+
+
+def enumerated(tier, seed):
+    """fixed boundary programs of the statement (run through the same model oracle)"""
+    G = lambda n, t, e: ("decl", n, t, e, ())
+    coll = [G("total", None, I(100)),
+            ("class", "C", [("total", "int")], [], [("setf", SELF, "total", I(1))],
+             [("bump", [], None, [("decl", "total", None, ("bin", "+", V("total"), I(1)), ("modify",))]),
+              ("read", [], "int", [("return", V("total"))]),
+              ("own", [], "int", [("return", F(SELF, "total"))])]),
+            G("c", None, ("new", "C", [])),
+            ("expr", ("mcall", V("c"), "bump", [])),
+            ("print", V("total")), ("print", F(V("c"), "total")), ("print", ("mcall", V("c"), "read", [])), ("print", ("mcall", V("c"), "own", []))]
+    two = [("class", "P", [("v", "int")], [("v", "int")], [("setf", SELF, "v", V("v"))],
+            [("val", [], "int", [("return", F(SELF, "v"))]), ("inc", [], ("cls", "Self"), [("opassign", F(SELF, "v"), "+=", I(1)), ("return", SELF)])]),
+           G("p", None, ("new", "P", [I(1)])), G("q", None, ("new", "P", [I(1)])), G("r", None, V("p")),
+           ("print", ("mcall", ("mcall", ("mcall", V("p"), "inc", []), "inc", []), "val", [])), ("print", ("mcall", V("q"), "val", [])), ("print", ("mcall", V("r"), "val", [])),
+           ("print", ("bin", "is", V("p"), V("r"))), ("print", ("bin", "is", V("p"), V("q"))), ("print", ("bin", "is", ("mcall", V("p"), "inc", []), V("r")))]
+    return [{"stmts": coll, "labels": ["feat:field-named-like-a-global"], "nt": True, "raw": True},
+            {"stmts": two, "labels": ["fixed:chain-identity"], "nt": True, "raw": True}]
 
 
 def strategy(tier):
